@@ -30,6 +30,11 @@ CLAIMS = {
         "note": "Assumes: a driver whose open() fails opened nothing; driver.close releases the object; storage drivers declare their own state (a Running answer from set counts as started); device_manager_get_driver (C++) stubbed; CBMC/goto-cc semantics.",
         "design": "5/C11",
     },
+    "C13": {
+        "text": "copy_string is enforced (DFCC) against its full contract for symbolic lengths up to 2^30, NULL/empty/borrowed/owned/unterminated strings and failing allocations: deep copy, NUL at the recorded length, source untouched, no aliasing, block accounting on a ghost live-block counter (malloc/realloc/free routed through counting wrappers) so that every replaced block is released exactly once and borrowed memory never. Every public operation (init, set_uri, set_external_metadata, set_access_key_and_secret, set_dimension, set_enable_multiscale, copy, destroy) is checked against a contract stating well-formedness preserved, exactly the named field changed, deep and complete copies, source bit-identical and still alive, and block accounting. Well-formedness preservation plus per-operation leak freedom gives all init/set/copy/destroy sequences by induction.",
+        "note": "The operations that walk the dimension array (copy, set_dimension, destroy, init) are case-split on 0..2 dimensions with literal counts (CBMC's memset model mis-handles a symbolic element count and a symbolic count ran out of memory) and use 2-byte string blocks: those units are reported under 'bounded', not counted as proved; in copy and set_dimension copy_string is replaced by a stub contract that is itself proved to satisfy CONTRACT_copy_string. Contracts of the top-level operations are checked by assume/assert around the call rather than DFCC write-set instrumentation (which ran out of memory). Self-copy (dst == src) is excluded by precondition.",
+        "design": "5/C13",
+    },
 }
 
 NOT_YET = "no contract units registered yet in this commit (under construction; see DESIGN.md sec. 11)"
